@@ -200,7 +200,7 @@ func (c *Check) capabilityCodec(rule string) {
 		}
 		apps := 0
 		for _, cl := range p.callsIn(fn, descIs("builtin:append")) {
-			if inLoop(cl.Block()) {
+			if inLoop(cl.Block()) && everyIteration(cl.(ssa.Instruction)) {
 				apps++
 			}
 		}
@@ -417,7 +417,7 @@ func (c *Check) setDecoderShape(rule, fnName string, step int64) {
 		return
 	}
 	apps := p.callsIn(fn, descIs("builtin:append"))
-	okA := len(apps) == 1 && inLoop(apps[0].Block())
+	okA := len(apps) == 1 && inLoop(apps[0].Block()) && everyIteration(apps[0].(ssa.Instruction))
 	adv := elementLoopAdvance(fn, step)
 	if !(okA && adv) && len(apps) == 0 && inPlaceElementLoop(fn, step) {
 		okA, adv = true, true
@@ -467,7 +467,7 @@ func (c *Check) capabilityHelpers(rule string) {
 		}
 		apps := p.callsIn(fn, descIs("builtin:append"))
 		encs := p.callsIn(fn, descIs("AddPathTuple.Encode"))
-		appendForm := len(apps) == 1 && inLoop(apps[0].Block()) && len(encs) == 1
+		appendForm := len(apps) == 1 && inLoop(apps[0].Block()) && everyIteration(apps[0].(ssa.Instruction)) && len(encs) == 1
 		ok = ok && (appendForm || (len(apps) == 0 && p.inPlaceEncodeLoop(fn, 4)))
 		// the Value handed out is that buffer, whole
 		valOK := false
